@@ -23,14 +23,16 @@ type c13Case struct {
 	Kind   string   `json:"kind"`            // string | join | exec | execfail
 	Value  string   `json:"value,omitempty"` // string: literal text; exec: word printed with surrounding white space
 	Parts  []string `json:"parts,omitempty"` // join arguments
+	Cmd    string   `json:"cmd,omitempty"`   // execraw: the command; Value is the expected result
 	Second bool     `json:"second"`          // a second variable W is defined too and used next to the first
 	Nested bool     `json:"nested"`          // run from a nested working directory
 }
 
-var c13Names = []string{"V", "HOME", "AMB", "DOT", "BOTH"}
+// Env, Names, String: names that coincide with plausible method names of whatever value the template engine is handed
+var c13Names = []string{"V", "HOME", "AMB", "DOT", "BOTH", "Env", "Names", "String"}
 var c13Values = []string{"plain", "in ner", " lead", "trail ", "$x", "${x}", "{", "}", "a=b", "#", "'", "", "é-ü", "x'y z", "-n", "%s", "a\tb", "{{.W}}", "a{{.HOME}}b", "100%", "{{"}
 
-func shellSafe(v string) bool { return !strings.ContainsAny(v, "'") }
+func shellSafe(v string) bool { return !strings.ContainsAny(v, "'\n\r()") }
 
 func (c c13Case) text() string {
 	var sb strings.Builder
@@ -45,6 +47,8 @@ func (c c13Case) text() string {
 		fmt.Fprintf(&sb, "%s := join(%s)\n", c.Name, strings.Join(q, ", "))
 	case "exec":
 		fmt.Fprintf(&sb, "%s := exec(\"printf '  \\n %s \\t\\n\\n'\")\n", c.Name, c.Value)
+	case "execraw":
+		fmt.Fprintf(&sb, "%s := exec(\"%s\")\n", c.Name, c.Cmd)
 	case "execfail":
 		fmt.Fprintf(&sb, "%s := exec(\"exit 3\")\n", c.Name)
 	}
@@ -90,6 +94,12 @@ func c13Cases(tier string) []c13Case {
 		}
 	}
 	out = append(out, c13Case{Name: "V", Kind: "execfail"}, c13Case{Name: "DOT", Kind: "execfail"})
+	// exec output that is not plain text: terminal escape sequences, inner newlines, CRLF
+	out = append(out,
+		c13Case{Name: "V", Kind: "execraw", Cmd: `printf '\033[31mred\033[0m'`, Value: "\x1b[31mred\x1b[0m"},
+		c13Case{Name: "V", Kind: "execraw", Cmd: `printf 'a\nb\n'`, Value: "a\nb"},
+		c13Case{Name: "V", Kind: "execraw", Cmd: `printf 'a\r\nb'`, Value: "a\r\nb"},
+		c13Case{Name: "V", Kind: "execraw", Cmd: `printf '\033(Bx'`, Value: "\x1b(Bx"})
 	return out
 }
 
@@ -126,7 +136,7 @@ func c13Run(root string, c c13Case) (obs []c13Obs, inv int) {
 	if o.Exit != 0 || o.Died() {
 		return []c13Obs{{"unexpected-failure", fmt.Sprintf("--vars: exit=%d %s", o.Exit, firstLines(o.Stderr, 3))}}, inv
 	}
-	if want == strings.TrimSpace(want) && want != "" && !strings.Contains(want, "\t") {
+	if want == strings.TrimSpace(want) && want != "" && !strings.ContainsAny(want, "\t\n\r\x1b") {
 		found := false
 		for _, l := range strings.Split(o.Stdout, "\n") {
 			f := strings.Fields(l)
